@@ -37,7 +37,7 @@ def run_case(ctx, gd, q, via="outcomes"):
     n0 = kernel.LOG.counters.get("eval:are_d_separated", 0)
     res = None
     try:
-        res = gq.call_id(g, q, "identify" if via == "idc" else via)
+        res = gq.call_id(g, q, "identify" if via == "idc" else via, prop=PROP)
     except Exception:  # noqa: BLE001 -- judged by the on_raise monitor
         pass
     nsep = kernel.LOG.counters.get("eval:are_d_separated", 0) - n0
